@@ -134,6 +134,15 @@ func c01Programs(th bool) []map[string]interface{} {
 	for _, ins := range []string{"X,W4,R4,,,,s0", "X,W4,R4,,,s0"} {
 		out = append(out, graphCase([]gnode{{"LSTM", ins, "p", "hidden_size=2"}, {"LSTM", ins, "q", "hidden_size=2"}, {"Add", "p,q", "o", ""}}, rin, []string{"W4:1,8,2", "R4:1,8,2", "s0:1,2,2"}, []string{"o", "s0"}, []string{"X"}))
 	}
+	// a caller tensor handed over lazily transposed, as the LOWER-rank operand of broadcasting nodes and read twice
+	{
+		cm := graphCase([]gnode{{"Add", "m,s3", "a", ""}, {"Relu", "a", "r", ""}, {"Mul", "r,m", "o", ""}}, []string{"m:2,3"}, []string{"s3:2,2,3"}, []string{"o", "a"}, []string{"m"})
+		cm["lazyT"] = "m"
+		out = append(out, cm)
+		cm = graphCase([]gnode{{"Sub", "s3,m", "a", ""}, {"MatMul", "a,w32", "o", ""}}, []string{"m:2,3"}, []string{"s3:2,2,3", "w32:3,2"}, []string{"o"}, []string{"m"})
+		cm["lazyT"] = "m"
+		out = append(out, cm)
+	}
 	// a tensor read by a node that scales it (Gemm's C with beta != 1, alpha != 1) and read again afterwards
 	out = append(out, graphCase([]gnode{{"Gemm", "x,w,c2", "s", "beta=2;alpha=3"}, {"Add", "s,c2", "o", ""}, {"Mul", "x,w", "o2", ""}}, inputs, []string{"w:2,2", "c2:2,2"}, []string{"o", "s", "o2"}, sup))
 	out = append(out, graphCase([]gnode{{"Gemm", "x,y,y", "s", "beta=2;transA=1"}, {"Sub", "s,y", "o", ""}, {"Sub", "o,x", "o2", ""}}, inputs, inits, []string{"o2", "s"}, sup))
@@ -186,6 +195,7 @@ func init() {
 		}
 		p.Outside = []string{"graphs with more than 3 nodes (4 with Constants)", "operators outside the alphabet (their own semantics are C03-C11)", "protobuf decoding of the model bytes (the harness starts from the decoded struct)"}
 		p.Explanation = "NewModel, Model.Run, applyOp, getInputTensorsForNode, setOutputTensorsOfNode, validateShapes, GetOperator and the operators used executed symbolically"
+		reentrancyJobs(o, p)
 		return p
 	}
 }
